@@ -62,6 +62,42 @@ def W6():
     ]
 
 
+def other_device_looks(W, device_cls):
+    """A user who also prepares the same deck for the other device: the public numbering helper of the *other* device
+    is asked for every well of every labware of the world (nothing is pipetted).  Must not influence anything."""
+    from robotools.evotools.utils import get_well_position as evo_pos
+    from robotools.fluenttools.utils import get_well_position as fluent_pos
+
+    fn = fluent_pos if device_cls == "EvoWorklist" else evo_pos
+    for lw in W["lw"].values():
+        for w in lw.wells.flatten():
+            fn(lw, str(w))
+
+
+def make_worklist(cls, max_volume=950, auto_split=True, diti_mode=False):
+    """A worklist of the named class.  "Worklist" is the deprecated alias of EvoWorklist; a suffix selects how the
+    arguments are handed over: ":pos" all positional (filepath, max_volume, auto_split, diti_mode), ":mixed" two
+    positional and two by keyword, otherwise all by keyword."""
+    import warnings
+
+    from ..world import rt
+
+    name, _, form = cls.partition(":")
+    with warnings.catch_warnings():
+        warnings.simplefilter("ignore", DeprecationWarning)
+        if form == "pos":
+            return getattr(rt, name)(None, max_volume, auto_split, diti_mode)
+        if form == "mixed":
+            return getattr(rt, name)(None, max_volume, diti_mode=diti_mode, auto_split=auto_split)
+        return getattr(rt, name)(max_volume=max_volume, auto_split=auto_split, diti_mode=diti_mode)
+
+
+def jdump(x):
+    import json
+
+    return json.dumps(x, sort_keys=True, default=str)
+
+
 def vandalize_helpers(R, C):
     """What a caller does to the objects the public helpers hand out is its own business: request the index
     dictionary and the well-ID array of an R x C plate and overwrite them.  Later results must not change."""
@@ -296,15 +332,23 @@ class BaseB:
     SEQ_WINDOW = 400
     MAX_SEQ_INVESTIGATIONS = 3
 
-    def run_chunk(self, chunk, st):
+    def _clear(self):
         clear_caches()
+        self.after_clear()
+
+    def after_clear(self):
+        """hook: what a harness wants done whenever the hidden state has been reset (e.g. a caller that overwrites
+        the objects the public helpers hand out)"""
+
+    def run_chunk(self, chunk, st):
+        self._clear()
         prev = []
         investigated = 0
         for case in self.cases(chunk):
             outcome, key, viol = self.one(case)
             if viol:
                 # does it depend on what ran before?
-                clear_caches()
+                self._clear()
                 o2, k2, v2 = self.one(case)
                 if sorted(c for c, _ in v2) != sorted(c for c, _ in viol):
                     investigated += 1
@@ -314,7 +358,7 @@ class BaseB:
                         continue
                     seq = None
                     for pred in reversed(prev[-self.SEQ_WINDOW :]):
-                        clear_caches()
+                        self._clear()
                         self.one(pred)
                         o3, k3, v3 = self.one(case)
                         if sorted(c for c, _ in v3) == sorted(c for c, _ in viol):
@@ -325,7 +369,7 @@ class BaseB:
                     st.case(outcome + ":order-dependent", {"$seq": seq}, key)
                     for clause, detail in viol:
                         st.violation(clause + "/order-dependent", {"$seq": seq}, f"only after {len(seq) - 1} earlier call(s) in the same process: {detail}")
-                    clear_caches()
+                    self._clear()
                     for c in prev:
                         self.one(c)
                     prev.append(case)
@@ -336,7 +380,7 @@ class BaseB:
             prev.append(case)
 
     def replay(self, case):
-        clear_caches()
+        self._clear()
         if isinstance(case, dict) and "$seq" in case:
             for c in case["$seq"][:-1]:
                 self.one(c)
